@@ -225,6 +225,70 @@ theorem ufunc2_congr {β γ : Type} (op : α → β → γ) (a a' : Arr α) (b b
     obtain ⟨hia, hib⟩ := ufunc2_reads_inShape op a b u hu d hd
     rw [h2 d hd, h2' d (hsh ▸ hd), ← hsa, ← hsb, ha.2 _ hia, hb.2 _ hib]
 
+private theorem bav3_views {sa sb sc : Shape} {vs : List IxView} (h : broadcastArraysViews [sa, sb, sc] = some vs) :
+    ∃ r va vb vc, vs = [va, vb, vc] ∧ broadcastToView sa r = some va ∧ broadcastToView sb r = some vb ∧
+      broadcastToView sc r = some vc := by
+  unfold broadcastArraysViews at h
+  simp only [Option.bind_eq_some_iff] at h
+  obtain ⟨r, _, hvs⟩ := h
+  simp only [List.mapM_cons, List.mapM_nil, Option.bind_eq_bind, Option.bind_eq_some_iff, Option.pure_def,
+    Option.some.injEq] at hvs
+  obtain ⟨va, hva, ys, ⟨vb, hvb, zs, ⟨vc, hvc, ws, hws, rfl⟩, rfl⟩, rfl⟩ := hvs
+  subst hws
+  exact ⟨r, va, vb, vc, rfl, hva, hvb, hvc⟩
+
+/-- a broadcasting ternary ufunc (`view::where`) reads each operand inside its own shape -/
+theorem ufunc3_reads_inShape {β γ δ : Type} (op : α → β → γ → δ) (a : Arr α) (b : Arr β) (c : Arr γ) (u : Arr (Option δ))
+    (h : ufunc3 op a b c = some u) (d : Idx) (hd : InShape d u.shape) :
+    InShape (specBroadcastIdx a.shape d) a.shape ∧ InShape (specBroadcastIdx b.shape d) b.shape ∧
+    InShape (specBroadcastIdx c.shape d) c.shape := by
+  unfold ufunc3 at h
+  simp only [Option.bind_eq_some_iff] at h
+  obtain ⟨vs, hvs, h⟩ := h
+  obtain ⟨r, va, vb, vc, rfl, hva, hvb, hvc⟩ := bav3_views hvs
+  simp only [Option.some.injEq] at h
+  subst h
+  obtain ⟨hsa, hda⟩ := C06.broadcastTo_shape _ _ _ hva
+  obtain ⟨hsb, hdb⟩ := C06.broadcastTo_shape _ _ _ hvb
+  obtain ⟨hsc, hdc⟩ := C06.broadcastTo_shape _ _ _ hvc
+  simp only at hd
+  have hdr : InShape d r := hda ▸ hd
+  refine ⟨?_, ?_, ?_⟩
+  · have := C06.broadcastTo_inBounds _ _ _ hva d hd _ (C06.broadcastTo_index_eq_spec _ _ _ hva d hdr)
+    rwa [hsa] at this
+  · have := C06.broadcastTo_inBounds _ _ _ hvb d (hdb ▸ hdr) _ (C06.broadcastTo_index_eq_spec _ _ _ hvb d hdr)
+    rwa [hsb] at this
+  · have := C06.broadcastTo_inBounds _ _ _ hvc d (hdc ▸ hdr) _ (C06.broadcastTo_index_eq_spec _ _ _ hvc d hdr)
+    rwa [hsc] at this
+
+/-- ternary broadcasting ufunc (`view::where`): equivalent operands give the same Nothing-ness and equivalent results -/
+theorem ufunc3_congr {β γ δ : Type} (op : α → β → γ → δ) (a a' : Arr α) (b b' : Arr β) (c c' : Arr γ)
+    (ha : a.Equiv a') (hb : b.Equiv b') (hc : c.Equiv c') :
+    (ufunc3 op a b c = none ↔ ufunc3 op a' b' c' = none) ∧
+    ∀ u u', ufunc3 op a b c = some u → ufunc3 op a' b' c' = some u' → u.Equiv u' := by
+  have hsa := ha.1
+  have hsb := hb.1
+  have hsc := hc.1
+  constructor
+  · unfold ufunc3; rw [hsa, hsb, hsc]
+    cases broadcastArraysViews [a'.shape, b'.shape, c'.shape] with
+    | none => simp
+    | some vs =>
+      match vs with
+      | [va, vb, vc] => simp
+      | [] => simp
+      | [_] => simp
+      | [_, _] => simp
+      | _ :: _ :: _ :: _ :: _ => simp
+  · intro u u' hu hu'
+    obtain ⟨h1, h2⟩ := C07.ufunc3_spec op a b c u hu
+    obtain ⟨h1', h2'⟩ := C07.ufunc3_spec op a' b' c' u' hu'
+    rw [hsa, hsb, hsc, h1'] at h1
+    have hsh : u.shape = u'.shape := (Option.some.inj h1).symm
+    refine ⟨hsh, fun d hd => ?_⟩
+    obtain ⟨hia, hib, hic⟩ := ufunc3_reads_inShape op a b c u hu d hd
+    rw [h2 d hd, h2' d (hsh ▸ hd), ← hsa, ← hsb, ← hsc, ha.2 _ hia, hb.2 _ hib, hc.2 _ hic]
+
 /-- reductions (`view::sum`, `prod`, `amax`, … = `reduce`): equivalent operands give equivalent results -/
 theorem reduce_congr (op : α → α → α) (init : Option α) (a b : Arr α) (axis : Reduce.AxisArg) (keep : Bool)
     (hab : a.Equiv b) (hs : Pos a.shape) (hv : Reduce.ValidAxes a.shape.length axis) :
@@ -370,5 +434,7 @@ example : (ufunc2 (· + ·) (Arr.iota [2,3]) (Arr.iota [2])).isNone := by decide
 example : (Reduce.reduce (· + ·) none (Arr.iota [2,3]) (some [1]) true).map (fun u => (u.shape, u.get [1,0])) =
     some ([2,1], some 12) := by decide
 example : Reduce.ValidAxes [2,3].length (some [1]) := by decide
+example : (ufunc3 (fun c x y => if c = 0 then y else x) (Arr.iota [3]) (Arr.iota [2,3]) (Arr.iota [1])).map
+    (fun u => (u.shape, u.get [1,0], u.get [1,2])) = some ([2,3], some 0, some 5) := by decide
 
 end NmVerif.Props.C10
